@@ -289,6 +289,9 @@ func (i *interpreter) callVX(fr *frame, fn *ssa.Function, args []value) value {
 	case "ModelJSONDecoder":
 		i.ps.jsonDecode = args[0]
 		return nil
+	case "ModelJSONStream":
+		i.ps.jsonFactory = args[0]
+		return nil
 	case "RealDigits":
 		i.ps.realDigits = true
 		return nil
